@@ -41,6 +41,7 @@ type entry struct {
 	Step    int
 	Arrive  time.Duration
 	Body    []byte // payload after content decoding
+	BodySet bool   // the handler got as far as recording the payload
 	BodyErr string
 	Outcome string
 	RespAt  time.Duration // taken immediately BEFORE the response is handed to the transport
@@ -165,7 +166,7 @@ func (c *collector) ServeHTTP(w http.ResponseWriter, r *http.Request) {
 		}
 	}
 	c.set(e, func(e *entry) {
-		e.Body = body
+		e.Body, e.BodySet = body, true
 		if rerr != nil {
 			e.BodyErr = rerr.Error()
 		}
@@ -282,7 +283,7 @@ func (c *collector) serveGRPC(ctx context.Context, req proto.Message, okResp fun
 	e, st, known := c.arrive()
 	body, merr := detMarshal.Marshal(req)
 	c.set(e, func(e *entry) {
-		e.Body = body
+		e.Body, e.BodySet = body, true
 		if merr != nil {
 			e.BodyErr = merr.Error()
 		}
@@ -408,7 +409,7 @@ func (c *collector) startGRPC() (addr string, stop func(), err error) {
 	if err != nil {
 		return "", nil, err
 	}
-	srv := grpc.NewServer()
+	srv := grpc.NewServer(grpc.WaitForHandlers(true)) // Stop returns only when every handler has logged its outcome
 	coltracepb.RegisterTraceServiceServer(srv, traceSvc{c: c})
 	colmetricpb.RegisterMetricsServiceServer(srv, metricSvc{c: c})
 	collogpb.RegisterLogsServiceServer(srv, logSvc{c: c})
